@@ -220,6 +220,23 @@ fn gen_types(rng: &mut Lcg, n: usize) -> Vec<TypeDef> {
             types.push(TypeDef { name: format!("Cover{}{}", if via_map { "M" } else { "S" }, ci), kind: Kind::Struct(fields), via_map });
         }
     }
+    // names that differ only in letter case or are prefixes of one another, in every batch: an enum with the whole case
+    // family as variants (one value per variant is generated), a derived and a mapped struct whose keys are such names, and
+    // a derived struct whose two fields are renamed to each other's identifiers
+    types.push(TypeDef { name: "CoverCaseE".into(), kind: Kind::Enum(CASE_FAMILY.iter().map(|v| (v.to_string(), v.to_string())).collect()), via_map: false });
+    for via_map in [false, true] {
+        let fields: Vec<(String, String, FT)> = ["name", "Name", "NAME", "nam", "value", "value2", "camelCase", "camelcase"]
+            .iter()
+            .enumerate()
+            .map(|(i, id)| (id.to_string(), id.to_string(), if i % 2 == 0 { FT::Str } else { FT::Int("u8") }))
+            .collect();
+        types.push(TypeDef { name: format!("CoverCase{}", if via_map { "M" } else { "S" }), kind: Kind::Struct(fields), via_map });
+    }
+    types.push(TypeDef {
+        name: "CoverSwapS".into(),
+        kind: Kind::Struct(vec![("a".into(), "b_c".into(), FT::Str), ("b_c".into(), "a".into(), FT::Str), ("q".into(), "q".into(), FT::Int("u8"))]),
+        via_map: false,
+    });
     types
 }
 
